@@ -197,7 +197,7 @@ void of_mod2dense_copyrows     (of_mod2dense	*m,	/* Matrix to copy */
 			of_mod2dense_set (r, i, j, of_mod2dense_get (m, rows[i], j));
 		}
 #else
-		for (j = 0; j < of_mod2dense_cols (r); j++)
+		j = i;	/* copy row number i (this used to loop over the columns of r, indexing rows with column numbers) */
 		{
 			if (rows[j] >= of_mod2dense_rows (m))
 			{
